@@ -12,7 +12,7 @@ from .. import re2z3 as R
 from .. import xh
 
 FILES = ["src/reuse/report.py", "src/reuse/project.py", "src/reuse/_licenses.py", "src/reuse/_util.py", "src/reuse/extract.py"]
-NEXPR = 12
+NEXPR = 14
 KNOWN = "licenseref-unprovided-reported-bad"
 
 
@@ -189,7 +189,7 @@ def run(ctx):
     ]
     ctx.bounds = {
         "identifier classes": "current (MIT), deprecated (GPL-3.0), exception (Classpath-exception-2.0), LicenseRef-x, malformed LicenseRef-a_b, unknown (Foo), wrong case (mit), with real bundled SPDX records",
-        "ways of use": "12 expressions: alone, with '+', AND, OR in parentheses, WITH, LicenseRef with '+', none; one or two files",
+        "ways of use": "14 expressions (incl. two with a repeated identifier): alone, with '+', AND, OR in parentheses, WITH, LicenseRef with '+', none; one or two files",
         "provision": "per identifier {absent, ID.txt, ID.md, ID (no extension), sub/ID.txt, ID+.txt, ID.txt with ID.txt.license}, three identifiers at a time",
     }
     ctx.stubs = ["project.reuse_info_of returns the chosen expression (C02/C04 own reading and precedence)", "glob.iglob / Path.exists / is_dir / is_file replaced by the listing", "random pseudo-checksum made deterministic", "pathlib pure methods and licence parsing run natively on concrete values"]
